@@ -7,11 +7,13 @@ import "gonum.org/v1/gonum/internal/verif/vlib"
 func main() {
 	groups := []vlib.Group{
 		{Name: "uv-fit", Gen: genUVFit},
+		{Name: "uv-conjugate", Gen: genUVConjugate},
 		{Name: "mv", Gen: genMV},
 		{Name: "samplers", Gen: genSamplers},
+		{Name: "views", Gen: genViews},
 	}
 	if !noasmBuild {
-		// Only the three groups above reach code with assembly kernels (floats.Sum in
+		// Only the groups above reach code with assembly kernels (floats.Sum in
 		// stat.Mean/SuffStat, BLAS in mat for distmv/distmat/samplemv); the others are scalar
 		// code and identical in the noasm configuration.
 		groups = append([]vlib.Group{
@@ -19,6 +21,7 @@ func main() {
 			{Name: "mathext", Gen: genMathext},
 			{Name: "rand-alphabet", Gen: genAlphabet},
 			{Name: "uv-rand", Gen: genUVRand},
+			{Name: "histories", Gen: genHistories},
 		}, groups...)
 	}
 	vlib.Main("C11", groups...)
